@@ -40,6 +40,7 @@ def java_cmd(workers=1, heap="3g", extra_jvm=()):
 
 
 _STATS = re.compile(r"^(\d+) states generated, (\d+) distinct states found")
+_SIMSTATS = re.compile(r"^The number of states generated: (\d+)")
 _DEPTH = re.compile(r"^The depth of the complete state graph search is (\d+)")
 _INV = re.compile(r"^Error: Invariant (\S+) is violated")
 _PROP = re.compile(r"^Error: (Temporal properties were violated|Action property (\S+) is violated|Deadlock reached)")
@@ -87,6 +88,10 @@ def run(module, cfg, on_line=None, workers=1, simulate=None, depth=None, seed=No
             m = _STATS.match(line)
             if m:
                 res.states, res.distinct = int(m.group(1)), int(m.group(2))
+                continue
+            m = _SIMSTATS.match(line)
+            if m:
+                res.states = res.distinct = int(m.group(1))
                 continue
             m = _DEPTH.match(line)
             if m:
